@@ -22,7 +22,7 @@ import pathlib
 from sim import fixtures as fx
 from sim.runner import RunResult
 from sim.storage import SEAM
-from sim.tofuworld import HOSTS, PORTS, TofuWorld, app_bytes_info, load_cert, read_table, spell
+from sim.tofuworld import HOSTS, HOST_WEIGHTS, NCA, PORTS, TofuWorld, app_bytes_info, load_cert, read_table, spell
 
 PROPERTY = "C11"
 LEVEL = "exploration"
@@ -35,7 +35,7 @@ RULE = ("each run is a history of 1-6 client operations (get with/without query,
         "unreadable) and the bytes its peer decrypted plus the order of the pin lookup and the "
         "first application send are checked. distinct = distinct (operation, classification, "
         "reader) vectors; non-trivial = at least one changed or unreadable connection occurred")
-PROBES = ["client_used_as_context_manager_in_between", "connection_fails_at_accept_first", "ca_validation_on_as_well", "impostor_connection", "unreadable_connection", "impostor_never_reads",
+PROBES = ["restart_more_than_a_year_later", "client_used_as_context_manager_in_between", "connection_fails_at_accept_first", "ca_validation_on_as_well", "impostor_connection", "unreadable_connection", "impostor_never_reads",
           "impostor_lazy", "upload_to_impostor", "redirect_hop_to_impostor", "ordering_checked",
           "large_upload", "sql_fault_during_operation", "overlapping_operations_one_endpoint"]
 COMPONENTS = {
@@ -70,11 +70,12 @@ def run_one(ch):
     model = {}
     hist = []
     st = {"imp": 0, "unread": 0, "never": 0, "lazy": 0, "upimp": 0, "redirimp": 0, "order": 0,
-          "large": 0, "sqlfault": 0, "overlap": 0, "ctx": 0, "failonce": 0}
+          "large": 0, "sqlfault": 0, "overlap": 0, "ctx": 0, "failonce": 0, "yearlater": 0}
     judged = []
 
     def endpoint(label):
-        return (HOSTS[ch.choose(label + ".h", 3)], PORTS[ch.choose(label + ".p", 2, [3, 1])])
+        nh = NCA if ca_mode else len(HOSTS)
+        return (HOSTS[ch.choose(label + ".h", nh, HOST_WEIGHTS[:nh])], PORTS[ch.choose(label + ".p", 2, [3, 1])])
 
     def url_of(key, path):
         h, p = key
@@ -93,9 +94,17 @@ def run_one(ch):
             hist.append(f"pre-pin {key[0]}:{key[1]} {c}")
         forced_key = None
         for i in range(nops):
-            op = ch.choose("op", 8, [5, 5, 2, 4, 2, 2, 2, 1])
+            op = ch.choose("op", 9, [5, 5, 2, 4, 2, 2, 2, 1, 1])
             if forced_key is not None:
                 op = 0
+            if op == 8:
+                # more than a year later the program is started again on the same store
+                await asyncio.sleep(400 * 86400.0)
+                client = GeminiClient(timeout=8.0, tofu_db_path=pathlib.Path(w.db_path), verify_ssl=ca_mode)
+                db = client.tofu_db
+                hist.append("400 days later: new client object on the same store")
+                st["yearlater"] += 1
+                continue
             if op == 7:
                 # the client object is used as a context manager in between and used on
                 hist.append("async with client: pass")
@@ -263,7 +272,7 @@ def run_one(ch):
         os.environ["SSL_CERT_FILE"] = fx.crt(fx.CA_FILE_NAME)
         res.stats["ca_validation_on_as_well"] += 1
     try:
-        w.run(main)
+        w.run(main, horizon=7 * 400 * 86400.0 + 1e6)
     finally:
         if ca_mode:
             if old_ca is None:
@@ -328,7 +337,8 @@ def run_one(ch):
                      "sql_fault_during_operation": "sqlfault",
                      "overlapping_operations_one_endpoint": "overlap",
                      "client_used_as_context_manager_in_between": "ctx",
-                     "connection_fails_at_accept_first": "failonce"}.items():
+                     "connection_fails_at_accept_first": "failonce",
+                     "restart_more_than_a_year_later": "yearlater"}.items():
         if st[k]:
             res.stats[probe] += 1
     res.stats["operations"] += len(judged)
